@@ -46,7 +46,11 @@ class MultilevelResetViaResonator(cirq.Gate):
         return cirq.reset_each(*qubits)
 
     def _json_dict_(self) -> dict[str, Any]:
-        return {}
+        if self._num_qubits == 1:
+            return {}
+        return {'num_qubits': self._num_qubits}
 
     def __repr__(self) -> str:
-        return 'cirq_google.MultilevelResetViaResonator()'
+        if self._num_qubits == 1:
+            return 'cirq_google.MultilevelResetViaResonator()'
+        return f'cirq_google.MultilevelResetViaResonator(num_qubits={self._num_qubits})'
